@@ -113,12 +113,14 @@ Definition resolve (s : astate) (a : acc) : res qname :=
   | ABad => Crash TypeError
   end.
 
-(* TagAttributes._etree_key *)
-Definition etree_key (dns : str) (q : qname) : str :=
-  if (negb (null (fst q)) && negb (str_eqb dns (fst q)))%bool
-  then LBRACE :: fst q ++ RBRACE :: snd q
+(* TagAttributes._etree_key: `{ns}name` when ns is not the default namespace in scope, or when the store
+   already holds `{ns}name` (the lookup prefers an existing entry); else the plain name *)
+Definition clark (q : qname) : str := LBRACE :: fst q ++ RBRACE :: snd q.
+Definition etree_key (dns : str) (st : list (str * str)) (q : qname) : str :=
+  if (negb (null (fst q)) && (negb (str_eqb dns (fst q)) || ahas str_eqb st (clark q)))%bool
+  then clark q
   else snd q.
-Definition skey (s : astate) (q : qname) : str := etree_key (st_dns s) q.
+Definition skey (s : astate) (q : qname) : str := etree_key (st_dns s) (st_store s) q.
 
 (* one key of TagAttributes.__iter__ *)
 Definition present (dns : str) (k : str) : qname :=
@@ -159,11 +161,13 @@ Definition obj_set_value (s : astate) (o : oid) (v : str) : astate * out :=
   | None => (s, RUnspec)
   end.
 
-(* TagAttributes.__setitem__ *)
+(* TagAttributes.__setitem__: the cached Attribute object, if any, is kept *)
 Definition setitem_q (s : astate) (q : qname) (v : str) : astate :=
   let s0 := with_store s (aset str_eqb (st_store s) (skey s q) v) in
-  let '(s1, o) := new_obj s0 q in
-  with_cache s1 (aset qname_eqb (st_cache s1) q o).
+  match aget qname_eqb (st_cache s) q with
+  | Some _ => s0
+  | None => let '(s1, o) := new_obj s0 q in with_cache s1 (aset qname_eqb (st_cache s1) q o)
+  end.
 
 (* TagAttributes.__delitem__ *)
 Definition delitem_q (s : astate) (q : qname) : astate * out :=
@@ -190,13 +194,20 @@ Definition set_new_key (s : astate) (o : oid) (q' : qname) : astate * out :=
       else match x with
            | Dead _ _ => (s, RCrash AssertionError)
            | Live q =>
+               if str_eqb (skey s q) (skey s q')
+               then (* both names address the same entry: only the cache entry moves *)
+                 (mkA (st_store s) (st_dns s) (st_node_ns s)
+                      (aset qname_eqb (adel qname_eqb (st_cache s) q) q' o)
+                      (set_nth (st_objs s) o (Live q')), RNone)
+               else
                match obj_value s o with
                | RStr v =>
                    let s1 := setitem_q s q' v in
-                   let s2 := with_objs s1 (set_nth (st_objs s1) o (Live q')) in
-                   let '(s3, r) := delitem_q s2 q in
+                   let '(s3, r) := delitem_q s1 q in
                    match r with
-                   | RNone => (with_objs s3 (set_nth (st_objs s3) o (Live q')), RNone)
+                   | RNone => (mkA (st_store s3) (st_dns s3) (st_node_ns s3)
+                                   (aset qname_eqb (st_cache s3) q' o)
+                                   (set_nth (st_objs s3) o (Live q')), RNone)
                    | e => (s3, e)
                    end
                | e => (s, e)
@@ -302,16 +313,20 @@ Fixpoint sys_run (y : sys) (l : list op) : sys * list out :=
   | x :: r => let '(y1, o) := sys_step y x in let '(y2, os) := sys_run y1 r in (y2, o :: os)
   end.
 
-(* TagAttributes.__eq__(other) for another TagAttributes: equal sizes, and every item of self is
-   found in other with an equal value (the Attribute objects created on the way are not modelled) *)
+(* TagAttributes.__eq__(other) for another TagAttributes: equal sizes, and every item of self has its key
+   among the keys other presents and is found in other with an equal value (the Attribute objects created
+   on the way are not modelled) *)
 Definition eq_item (s1 s2 : astate) (k : str) : out :=
   let q := present (st_dns s1) k in
   match aget str_eqb (st_store s1) (skey s1 q) with
   | None => RKeyError                                       (* self[key] *)
-  | Some v1 => match aget str_eqb (st_store s2) (skey s2 q) with
-               | None => RBool false                         (* other.get(...) is None *)
-               | Some v2 => RBool (str_eqb v1 v2)
-               end
+  | Some v1 =>
+      if existsb (qname_eqb q) (map (present (st_dns s2)) (map fst (st_store s2)))
+      then match aget str_eqb (st_store s2) (skey s2 q) with
+           | None => RBool false                             (* other.get(...) is None *)
+           | Some v2 => RBool (str_eqb v1 v2)
+           end
+      else RBool false                                       (* key not in set(other) *)
   end.
 Fixpoint eq_items (s1 s2 : astate) (ks : list str) : out :=
   match ks with
@@ -323,7 +338,8 @@ Fixpoint eq_items (s1 s2 : astate) (ks : list str) : out :=
   end.
 Definition attrs_eq (s1 s2 : astate) : out :=
   if Nat.eqb (length (st_store s1)) (length (st_store s2))
-  then (if forallb decon_ok (map fst (st_store s1)) then eq_items s1 s2 (map fst (st_store s1)) else RCrash ValueError)
+  then (if (forallb decon_ok (map fst (st_store s1)) && forallb decon_ok (map fst (st_store s2)))%bool
+        then eq_items s1 s2 (map fst (st_store s1)) else RCrash ValueError)
   else RBool false.
 
 (* ------------------------------------------------------------------------------------------ *)
@@ -498,7 +514,9 @@ Definition skey_shape (k : str) : bool :=
   | Some (None, n) => plain n
   | None => false
   end.
-(* DESIGN finding 13b/13e: a key `{d}name` while d is the default namespace in scope *)
+(* a key `{d}name` while d is the default namespace in scope (DESIGN 13b/13e).  Since fix bde0777 such an
+   entry is reachable as (d, name); what remains outside the theorems is that the accessor ("", name)
+   does not reach it and can create a second entry `name` presented under the same key *)
 Definition collides (dns : str) (k : str) : bool :=
   match spec_clark k with Some (Some ns, _) => str_eqb dns ns | _ => false end.
 
@@ -529,8 +547,11 @@ Definition sys_wf (y : sys) : bool :=
 Definition acc_wf (node_ns : str) (a : acc) : bool :=
   match acc_q node_ns a with Some q => plainq q | None => false end.
 
-(* DESIGN finding 23: removing the entry of q detaches only the object cached for q; the guard says that
-   no *other* object the client holds is a live view of that entry (`but` = the object doing a rename) *)
+(* Removing the entry of q detaches only the object cached for q; the guard says that no *other* object
+   the client holds is a live view of that entry (`but` = the object doing a rename).  Since fix 3e7a286
+   (__setitem__ keeps the cached object, a renamed object is cached under its new name) this can only
+   happen when two live objects exist for one entry: fetched under both spellings (no namespace /
+   default namespace), or after renaming one attribute onto another that has a held object *)
 Definition same_entry (s : astate) (q q' : qname) : bool := qname_eqb (norm (st_dns s) q) (norm (st_dns s) q').
 Definition no_stale (s : astate) (T : list oid) (q : qname) (but : option oid) : bool :=
   forallb (fun o => match nth_error (st_objs s) o with
@@ -546,8 +567,8 @@ Definition rename_safe (s : astate) (T : list oid) (o : oid) (q' : qname) : bool
   match nth_error (st_objs s) o with
   | Some (Live q) =>
       if qname_eqb q q' then true
-      else (negb (same_entry s q q')            (* renaming between "no namespace" and the default namespace *)
-            && no_stale s T q (Some o))%bool
+      else if same_entry s q q' then true       (* only the spelling changes *)
+      else no_stale s T q (Some o)
   | _ => true
   end.
 
